@@ -24,7 +24,10 @@ AREAS = ["parameters_a", "parameters_b", "parameters_c", "conditions", "directiv
 
 
 # obligations whose exhaustion costs more than ~4 CPU-minutes on the unchanged tree (measured): thorough tier only
-HEAVY = {"roundtrip_envelope_a_severed3", "roundtrip_textmap_entries1", "roundtrip_hierarchy_expansion_never", "roundtrip_common_members3", "roundtrip_manifest_a_members3_uri0", "roundtrip_manifest_a_members3_uri1", "roundtrip_manifest_a_members3_uri2", "roundtrip_textmap_entries0", "roundtrip_encrypt_calg1", "roundtrip_encrypt_calg2"}
+HEAVY = {"roundtrip_component_id_part00", "roundtrip_authentication_blocks2_names2", "roundtrip_authentication_blocks2_names3",
+         "roundtrip_envelope_b_pn1_len0_dep0", "roundtrip_envelope_b_pn1_len0_dep1", "roundtrip_envelope_b_pn1_len1_dep1",
+         "roundtrip_envelope_b_pn2_len0_dep0", "roundtrip_envelope_b_pn2_len0_dep1", "roundtrip_envelope_b_pn2_len1_dep1",
+         "roundtrip_envelope_a_severed3", "roundtrip_textmap_entries1", "roundtrip_hierarchy_expansion_never", "roundtrip_common_members3", "roundtrip_manifest_a_members3_uri0", "roundtrip_manifest_a_members3_uri1", "roundtrip_manifest_a_members3_uri2", "roundtrip_textmap_entries0", "roundtrip_encrypt_calg1", "roundtrip_encrypt_calg2"}
 
 
 def obligations(tier):
@@ -57,14 +60,22 @@ def obligations(tier):
                     # known finding F14 is hit (once to find it, once with its predicate assumed away)
                     for nested in (0, 1):
                         for rp in (0, 1):
-                            obs.append(Ob(f"roundtrip_{a}_{sel}{i}_n{nested}p{rp}", "E1", "h_roundtrip", {"area": a, "fix": {sel: i, "nested": nested, "rec_protected": rp}}, 1200, f"area {a} ({sel}={i}, nested={nested}, rec_protected={rp}): bytes reproduced, parse fixpoint, leaf fidelity", weight=100))
+                            for ck in (0, 1):
+                                obs.append(Ob(f"roundtrip_{a}_{sel}{i}_n{nested}p{rp}c{ck}", "E1", "h_roundtrip", {"area": a, "fix": {sel: i, "nested": nested, "rec_protected": rp, "has_cek": ck}}, 1200, f"area {a} ({sel}={i}, nested={nested}, rec_protected={rp}, wrapped key {'present' if ck else 'absent'}): bytes reproduced, parse fixpoint, leaf fidelity", weight=100))
                     continue
                 obs.append(Ob(f"roundtrip_{a}_{sel}{i}", "E1", "h_roundtrip", {"area": a, "fix": {sel: i}}, 1200, f"area {a} ({sel}={i}): bytes reproduced, parse fixpoint, leaf fidelity", weight=100))
         else:
             obs.append(Ob(f"roundtrip_{a}", "E1", "h_roundtrip", {"area": a}, 1200, f"area {a}: bytes reproduced, parse fixpoint, leaf fidelity", weight=100))
-    obs.append(Ob("hierarchy_expansion", "E1", "h_hierarchy", {}, 1200, "envelope with an integrated dependency: parse with hierarchy expansion (json and yaml variants) then create reproduces the bytes", weight=100))
+    for ym in (0, 1):
+        obs.append(Ob(f"hierarchy_expansion_{'yaml' if ym else 'json'}", "E1", "h_hierarchy", {"yaml_mode": ym}, 1200, f"envelope with an integrated dependency: parse with hierarchy expansion ({'yaml' if ym else 'json'} variant) then create reproduces the bytes", weight=250))
+    # longest first (measured seconds on the unchanged tree)
+    for o in obs:
+        if o.name.startswith(("roundtrip_nesting", "roundtrip_parameters_c", "roundtrip_authentication_blocks2", "roundtrip_common_members0", "roundtrip_component_id_part0", "roundtrip_envelope_b", "roundtrip_manifest_b")):
+            o.weight = 200
     if tier == "quick":
-        obs = [o for o in obs if o.name not in HEAVY and not o.name.startswith(("roundtrip_encrypt_calg1", "roundtrip_encrypt_calg2"))]
+        # encryption info: one structure per flag in the quick tier (flat/nested recipients x wrapped key present/absent)
+        keep_enc = ("roundtrip_encrypt_calg0_n0p0c1", "roundtrip_encrypt_calg0_n1p1c0", "roundtrip_encrypt_calg0_n0p1c0")
+        obs = [o for o in obs if o.name not in HEAVY and (not o.name.startswith("roundtrip_encrypt_") or o.name in keep_enc)]
     return obs
 
 
@@ -197,6 +208,10 @@ def h_roundtrip(area, fix=None, exclude=()):
             p = leaf.prov
             chx.assume(len(p) == 0 or p[0] == 0x01 or (len(p) >= 2 and p[0] == 0xD8 and p[1] == 0x6B and (len(p) == 2 or p[2] == 0x00)))
         for fid, leaf in ambiguous_bytes(area, d):
+            if fid not in exclude and area == "encrypt":
+                # wrapped-key bytes: the head byte forks the trial decoder over every CBOR type (~230 paths before the known
+                # ambiguity F14 is reached); two representatives - an unambiguous head and the nil head
+                chx.assume(len(leaf.prov) == 0 or leaf.prov[0] == 0x40 or leaf.prov[0] == 0xF6)
             if fid in exclude:
                 # an empty-bstr head never decodes as the integer / null alternative (one representative head byte: a fully
                 # symbolic head forks the decoder over every CBOR type)
@@ -219,7 +234,7 @@ def h_roundtrip(area, fix=None, exclude=()):
     return harness
 
 
-def h_hierarchy(exclude=()):
+def h_hierarchy(yaml_mode=None, exclude=()):
     from vlib import suitenv
 
     e = suitenv.setup()
@@ -229,7 +244,9 @@ def h_hierarchy(exclude=()):
     from vlib import chx
 
     chx.FIXED.clear()
-    chx.FIXED.update({"with_dep": 0, "walg": 0, "pn": 1})
+    chx.FIXED.update({"with_dep": 0, "walg": 0, "pn": 1, "pa_len": 0})
+    if yaml_mode is not None:
+        chx.FIXED["yaml_mode"] = yaml_mode
 
     def harness():
         suitenv.reset(e)
@@ -271,7 +288,7 @@ def replay(obligation, params, cex):
     e = E()
     e.MF, e.SE, e.EN = MF, SE, EN
     L = c02.CexLeaves(cex)
-    if obligation == "hierarchy_expansion":
+    if obligation.startswith("hierarchy_expansion"):
         cex = dict(cex)
         cex["with_dep"] = False
         clsname, fn, d = c02.build("envelope_b", c02.CexLeaves(cex))
